@@ -34,6 +34,8 @@ type occBeh struct {
 	Fork       bool   `json:"fork"`
 	Exit       int    `json:"exit"`
 	SelfSig    bool   `json:"selfsig"`
+	Sticky     bool   `json:"sticky"`      // answer every transition ok=true, same event, state unchanged; do not move
+	StickyExit bool   `json:"sticky_exit"` // the same for EXIT only
 }
 
 type occServer struct {
@@ -93,6 +95,10 @@ func (s *occServer) Transition(ctx context.Context, req *pb.TransitionRequest) (
 	cur := s.cur()
 	rep := &pb.TransitionReply{Trigger: pb.StateChangeTrigger_EXECUTOR, TransitionEvent: req.GetTransitionEvent(), State: cur}
 	e, ok := occTable[req.GetTransitionEvent()]
+	if s.beh.Sticky || (s.beh.StickyExit && req.GetTransitionEvent() == "EXIT") {
+		rep.Ok = true // acknowledged, but the device stays where it is
+		return rep, nil
+	}
 	if s.beh.TransFail || !ok || (e[0] != cur && !(req.GetTransitionEvent() == "EXIT" && cur == "ERROR")) {
 		rep.Ok = false
 		return rep, nil
